@@ -75,7 +75,11 @@ LAYERS = {
              'success / error replies undecodable or misread, whatever the member order')],
     'C08': [('C01', 'R01.', 'R08.9', 'a call the server cannot frame exactly is answered zero or two times, or the next call is answered with its reply'),
             ('C02', 'R02.', 'R08.10', 'a reply that is not one document plus one NUL (or stays queued) is not "exactly one reply" for the client'),
-            ('C05', {'R05.1', 'R05.2', 'R05.3'}, 'R08.11', 'the server decides "no reply" from the decoded oneway flag: a flag lost or mixed up in the call envelope makes it answer a oneway call or stay silent on a normal one')],
+            ('C05', {'R05.1', 'R05.2', 'R05.3'}, 'R08.11', 'the server decides "no reply" from the decoded oneway flag: a flag lost or mixed up in the call envelope makes it answer a oneway call or stay silent on a normal one'),
+            ('C09', {'R09.2', 'R09.2b', 'R09.2c'}, 'R08.12', 'every call of a connection is answered only while the connection stays in the server\'s lists: a cleanup that removes another entry than the failing one '
+             '(wrong list, wrong index) silences a healthy connection - its later calls get no reply'),
+            ('C10', {'R10.1a', 'R10.1b', 'R10.1c', 'R10.2'}, 'R08.13', 'a connection parked with its stream must come back to the call list when the stream ends, and items go to the connection of their own entry: '
+             'otherwise later calls are never answered, or a client receives replies to calls it did not make')],
     'C09': [('C01', 'R01.', 'R09.7', 'a framing defect on the receive path turns one malformed or fragmented frame into lost or misattributed calls of that and later exchanges'),
             ('C02', 'R02.', 'R09.8', 'the handler awaits the send of every reply: a flush that loops, or leaves bytes queued, stalls the loop for every connection'),
             ('C18', {'R18.2'}, 'R09.9', 'a completed receive that the select drops is a call that is never answered on a healthy connection'),
